@@ -124,10 +124,11 @@ type dCase struct {
 // ---- concretisation of ids: tokens stay ASCII across the TLC boundary ----
 
 var idMaps = [][2]string{
-	{"", ""},               // identity
-	{"", " \"q\"<&>\\/\t"}, // characters JSON must escape
-	{"é漢\U0001F600-", ""},  // non-ASCII prefix
-	{"%2F?#&=+", ".x"},     // URL-reserved
+	{"", ""},                   // identity
+	{"", " \"q\"<&>\\/\t"},     // characters JSON must escape
+	{"é漢\U0001F600-", ""},      // non-ASCII prefix
+	{"%2F?#&=+", ".x"},         // URL-reserved
+	{"\x01\x1f", "\x7f\u2028"}, // control characters, DEL, line separator
 }
 
 func (v dVariant) id(tok string) string {
